@@ -182,10 +182,11 @@ def check_case(prim, fall, order, close_at, lag=0):
 # -- the SDK's own fallback fetcher: PVPowerFormula over a PV meter and two inverters ------
 
 
-def run_generated(prim, inv_b, order, close_at):
+def run_generated(prim, inv_b, order, close_at, lag=0):
     """grid(1) - meter(2) - PV meter(3) - {PV inverters 4, 5}.  The generated PV formula is `#3` with the
     fallback formula `#4 + #5` (a real FallbackFormulaMetricFetcher, started lazily).  prim: per-timestamp
-    'v' / None for the PV meter; inv_b: per-timestamp 'v' / None for inverter 5 (inverter 4 is always valid)."""
+    'v' / None for the PV meter; inv_b: per-timestamp 'v' / None for inverter 5 (inverter 4 is always valid);
+    lag: the meter samples are delivered `lag` steps behind the inverter streams (which keep streaming)."""
     from frequenz.client.microgrid import Component, ComponentCategory, ComponentMetricId, Connection, InverterType
     from frequenz.quantities import Power
 
@@ -219,12 +220,14 @@ def run_generated(prim, inv_b, order, close_at):
 
         stalled = False
         try:
-            for t in range(L):
+            for step in range(L + lag):
+                t = step - lag  # timestamp of the meter sample delivered in this step
                 evs = []
-                if close_at is not None and t == close_at:
-                    evs.append(("close",))
-                elif close_at is None or t < close_at:
-                    evs.append(("p", prim[t]))
+                if 0 <= t < L:
+                    if close_at is not None and t == close_at:
+                        evs.append(("close",))
+                    elif close_at is None or t < close_at:
+                        evs.append(("p", prim[t]))
                 evs.append(("f",))
                 if order == "fp":
                     evs.reverse()
@@ -238,9 +241,9 @@ def run_generated(prim, inv_b, order, close_at):
                             F.push(sdr, S(t, 1.0 + t if e[1] == "v" else None))
                     else:
                         for sdr in senders_for(4):
-                            F.push(sdr, S(t, 40.0 + t))
+                            F.push(sdr, S(step, 40.0 + step))
                         for sdr in senders_for(5):
-                            F.push(sdr, S(t, 60.0 + t if inv_b[t] == "v" else None))
+                            F.push(sdr, S(step, 60.0 + step if (inv_b[step] if step < L else "v") == "v" else None))
                     loop.settle()
                 while len(rx):
                     s_ = rx.consume()
@@ -250,7 +253,7 @@ def run_generated(prim, inv_b, order, close_at):
     return out, text, stalled
 
 
-def oracle_generated(prim, inv_b, order, close_at, out):
+def oracle_generated(prim, inv_b, order, close_at, out, lag=0):
     L = len(prim)
     v = []
 
@@ -263,7 +266,7 @@ def oracle_generated(prim, inv_b, order, close_at, out):
         if k in got:
             # a timestamp of the start-up window may be emitted a second time with the value the fallback
             # delivers late for it (first None, then the true value): the property allows the delay
-            if not (t0 is not None and k <= t0 + 1 and got[k] is None):
+            if not (t0 is not None and k <= t0 + 1 + lag and got[k] is None):
                 return [("one_output_per_timestamp_in_order", {"duplicate_timestamp": k, "outputs": out})]
         got[k] = val
     ks = [k for k, _ in out]
@@ -277,7 +280,9 @@ def oracle_generated(prim, inv_b, order, close_at, out):
             exp = 40.0 + t + (60.0 + t if inv_b[t] == "v" else 0.0)
         # start-up: the fallback engine is generated while t0 is processed; it needs the samples of a
         # following timestamp to produce its first value
-        in_startup = t0 is not None and not prim_valid(t) and t <= t0 + 1
+        # (with lagging meter samples the freshly generated fallback engine only sees inverter samples that are
+        # `lag` timestamps further on, so the window is that much longer)
+        in_startup = t0 is not None and not prim_valid(t) and t <= t0 + 1 + lag
         if t not in got:
             if in_startup:
                 continue
@@ -296,9 +301,9 @@ def gen_shard(args) -> Acc:
     for prim in itertools.product(["v", None], repeat=L):
         for inv_b in ((["v"] * L), (["v", None] * L)[:L]):
             for order in ("pf", "fp"):
-                for close_at in [None] + list(range(1, L)):
-                    out, text, stalled = run_generated(list(prim), inv_b, order, close_at)
-                    viol = oracle_generated(list(prim), inv_b, order, close_at, out)
+                for close_at, lag in [(None, 0)] + [(c, 0) for c in range(1, L)] + [(None, 1), (None, 2)]:
+                    out, text, stalled = run_generated(list(prim), inv_b, order, close_at, lag)
+                    viol = oracle_generated(list(prim), inv_b, order, close_at, out, lag)
                     if stalled:
                         viol.append(("execution_terminates", {}))
                     acc.evaluations += 1
@@ -307,13 +312,13 @@ def gen_shard(args) -> Acc:
                     acc.clauses["generated_formula_output_equals_primary_else_fallback"] += 1
                     if any(x is None for x in prim) or close_at is not None:
                         acc.nontrivial += 1
-                    acc.state(repr(("gen", prim, tuple(inv_b), order, close_at)))
+                    acc.state(repr(("gen", prim, tuple(inv_b), order, close_at, lag)))
                     acc.outcome(f"generated outputs={len(out)}")
                     if acc.evaluations % 300 == 1:
                         acc.sample({"driver": "generated", "formula": text, "primary": list(prim), "order": order, "primary_closed_at": close_at, "outputs": out})
                     for clause, detail in viol:
                         acc.violation(Violation(clause, {"driver": "generated", "primary": list(prim), "inverter_b": inv_b, "order": order,
-                                                          "close_at": close_at}, detail, classes(prim, None, order, close_at)))
+                                                          "close_at": close_at, "lag": lag}, detail, classes(prim, None, order, close_at)))
     return acc
 
 
@@ -365,7 +370,7 @@ def run(tier: str, seed: int, workers: int):
         "(all 3^L sequences), fallback per timestamp valid / None (all 2^L), fallback sample sent before or after the primary's, "
         "primary stream closed at every position, and the formula's own inputs delivered 0, 1 or 2 steps behind the live fallback stream; non-trivial = some primary sample invalid or the stream closed; plus the generated "
         "PV formula of a PV meter with two inverters (real FallbackFormulaMetricFetcher and registry): all 2^L meter sequences x "
-        "inverter-missing pattern x order x close position",
+        "inverter-missing pattern x order x (close position | meter samples 1 or 2 steps behind the inverter streams)",
         "assumptions": [
             "start-up delay made precise: the fallback is started at the first invalid primary timestamp t0; the output for t0, for "
             "the round in which a close is noticed, and for timestamps before the first sample the fallback stream delivers after "
@@ -380,7 +385,7 @@ def run(tier: str, seed: int, workers: int):
 
 def replay(case: dict):
     if case.get("driver") == "generated":
-        out, _, _ = run_generated(case["primary"], case["inverter_b"], case["order"], case["close_at"])
-        return oracle_generated(case["primary"], case["inverter_b"], case["order"], case["close_at"], out)
+        out, _, _ = run_generated(case["primary"], case["inverter_b"], case["order"], case["close_at"], case.get("lag", 0))
+        return oracle_generated(case["primary"], case["inverter_b"], case["order"], case["close_at"], out, case.get("lag", 0))
     _, v = check_case(case["primary"], case["fallback"], case["order"], case["close_at"], case.get("lag", 0))
     return v
